@@ -9,7 +9,7 @@ use rustc_middle::mir::{
 use rustc_middle::ty::{self, GenericArgsRef, Ty, TyCtxt, TypingEnv};
 
 pub fn ty_str(t: Ty<'_>) -> String {
-    rustc_middle::ty::print::with_no_trimmed_paths!(format!("{}", t))
+    rustc_middle::ty::print::with_no_visible_paths!(rustc_middle::ty::print::with_no_trimmed_paths!(format!("{}", t)))
 }
 
 fn def_ref(tcx: TyCtxt<'_>, did: DefId) -> Vec<(&'static str, J)> {
@@ -527,7 +527,7 @@ pub fn dump_all<'tcx>(tcx: TyCtxt<'tcx>) -> Vec<J> {
                 if let Some(tr) = tcx.impl_opt_trait_ref(imp) {
                     let tr = tr.skip_binder();
                     v.push(("impl_trait", s(path_str(tcx, tr.def_id))));
-                    v.push(("impl_trait_ref", s(rustc_middle::ty::print::with_no_trimmed_paths!(format!("{}", tr)))));
+                    v.push(("impl_trait_ref", s(rustc_middle::ty::print::with_no_visible_paths!(rustc_middle::ty::print::with_no_trimmed_paths!(format!("{}", tr))))));
                 }
             } else if let Some(tr) = tcx.trait_of_assoc(did) {
                 v.push(("default_of_trait", s(path_str(tcx, tr))));
